@@ -109,6 +109,43 @@ def _indent(s: str, n: int = 4) -> str:
     return '\n'.join((' ' * n + l) if l else l for l in s.split('\n'))
 
 
+# ---- additions after the third round: every field of every docstring syntax on every kind of owner (a field that makes no sense on its
+# owner - parameters of a module, instance variables of a function - is an ordinary mistake in real docstrings)
+_EPY_TAGS = ['param a', 'type a', 'keyword k', 'return', 'rtype', 'raise ValueError', 'ivar q', 'cvar c', 'var v', 'type q', 'yield', 'ytype', 'note', 'see', 'author',
+             'since', 'warns UserWarning', 'unknownfield', 'param', 'return r', 'attention', 'todo', 'precondition', 'change', 'newfield x', 'group g', 'sort']
+ALLFIELDS = {
+    'epy': '\n'.join(f'@{t}: text L{{nope}}' for t in _EPY_TAGS),
+    'rst': '\n'.join(f':{t}: text `nope`' for t in _EPY_TAGS if not t.startswith(('newfield', 'group', 'sort'))) + '\n:vartype q: int\n:yieldtype: int\n:Parameters:\n    - `a`: cons\n:Variables:\n    - `q`: cons',
+    'google': ('Args:\n    a (int): p\n    *args: s\n\nKeyword Args:\n    k: kw\n\nReturns:\n    int: r\n\nRaises:\n    ValueError: e\n\nAttributes:\n    q (int): i\n\nYields:\n    int: y\n\n'
+               'Note:\n    n\n\nSee Also:\n    x\n\nWarns:\n    UserWarning: w\n\nExample:\n    >>> 1\n\nMethods:\n    m: d\n\nReferences:\n    r\n\nTodo:\n    t\n\nOther Parameters:\n    o: op\n\nReceives:\n    z: rc'),
+    'numpy': ('Parameters\n----------\na : int\n    p\n*args\n    s\n\nOther Parameters\n----------------\nk\n    kw\n\nReturns\n-------\nint\n    r\n\nRaises\n------\nValueError\n    e\n\n'
+              'Attributes\n----------\nq : int\n    i\n\nYields\n------\nint\n    y\n\nNotes\n-----\nn\n\nSee Also\n--------\nx : d\n\nWarns\n-----\nUserWarning\n    w\n\nExamples\n--------\n>>> 1\n\nMethods\n-------\nm\n    d\n\nReferences\n----------\nr'),
+}
+
+
+def _doc(text: str, ind: int) -> str:
+    pad = ' ' * ind
+    return pad + '"""\n' + '\n'.join((pad + l) if l else '' for l in ('Summary line.\n\n' + text).split('\n')) + '\n' + pad + '"""'
+
+
+OWNERS = {
+    'module': lambda t: _doc(t, 0) + '\nq = 1',
+    'class': lambda t: 'class x:\n' + _doc(t, 4) + '\n    q = 1\n    def __init__(self, a, *args, k=1): pass',
+    'function': lambda t: 'def x(a, *args, k=1):\n' + _doc(t, 4),
+    'method': lambda t: 'class x:\n    def m(self, a, *args, k=1):\n' + _doc(t, 8),
+    'property': lambda t: 'class x:\n    @property\n    def p(self):\n' + _doc(t, 8) + '\n    @p.setter\n    def p(self, a):\n' + _doc(t, 8),
+    'attribute': lambda t: 'q = 1\n' + _doc(t, 0) + '\nclass x:\n    c = 2\n' + _doc(t, 4),
+    'instance-var': lambda t: 'class x:\n    def __init__(self):\n        self.q = 1\n' + _doc(t, 8),
+    'classmethod-static': lambda t: 'class x:\n    @classmethod\n    def cm(cls, a, *args, k=1):\n' + _doc(t, 8) + '\n    @staticmethod\n    def sm(a, *args, k=1):\n' + _doc(t, 8),
+    'overload': lambda t: 'from typing import overload\n@overload\ndef x(a: int) -> int:\n' + _doc(t, 4) + '\ndef x(a, *args, k=1):\n' + _doc(t, 4),
+    'exception-class': lambda t: 'class x(Exception):\n' + _doc(t, 4),
+    'docassign': lambda t: 'class x: pass\nx.__doc__ = ' + repr('Summary.\n\n' + t),
+}
+for _syn, _text in ALLFIELDS.items():
+    for _own, _fn in OWNERS.items():
+        S[f'allfields-{_syn}@{_own}'] = _fn(_text)
+
+
 PLACE: Dict[str, Callable[[str], str]] = {
     'module': lambda s: s,
     'class': lambda s: 'class Outer:\n' + _indent(s),
